@@ -280,8 +280,16 @@ class Result:
                 self.extra[k] = v
 
 
+def evidence_dir():
+    """evidence/ holds only runs against /repo; a run against another tree (VERIF_REPO, bin/seedtest) writes next to its build"""
+    import vbuild
+    if os.path.abspath(vbuild.REPO) == "/repo":
+        return os.path.join(VERIF, "evidence")
+    return os.path.join(vbuild.BUILD, "evidence")
+
+
 def write_evidence(res, tier, seed, wall):
-    os.makedirs(os.path.join(VERIF, "evidence"), exist_ok=True)
+    os.makedirs(evidence_dir(), exist_ok=True)
     cov = {
         "evaluations": int(res.evaluations),
         "distinct_nontrivial": int(res.nt_count if res.nt_count is not None else len(res.nontrivial)),
@@ -307,7 +315,7 @@ def write_evidence(res, tier, seed, wall):
         "wall_s": round(wall, 2),
         "violations": len(res.violations),
     }
-    p = os.path.join(VERIF, "evidence", res.prop + ".json")
+    p = os.path.join(evidence_dir(), res.prop + ".json")
     tmp = p + ".tmp"
     with open(tmp, "w") as fh:
         fh.write(jdumps(ev, indent=1))
